@@ -7,7 +7,8 @@ run() {
   f="$1"; n=$(basename "$f" .patch)
   case "$n" in
     neutral-C*) p=$(echo "$n" | sed -E 's/^neutral-(C[0-9]+).*/\1/'); out=$(tools/runmut.sh "$f" $p 2>&1 | head -1); case "$out" in *MISSED*) echo "OK   $n silent";; *) echo "BAD  $n: $out";; esac;;
-    neutral-*) out=$(VERBOSE=1000 tools/runmut.sh "$f" C01 C02 C03 C04 C05 C06 C07 C08 C09 C10 C11 C12 C13 C14 C15 C16 C17 C18 C19 C20 2>&1 | grep OPEN | python3 tools/residual.py "$n"); [ -z "$out" ] && echo "OK   $n silent$(grep -q "^$n " mutants/neutral-residuals.txt && echo ' (documented residuals excepted)')" || echo "BAD  $n false alarm: $(echo "$out" | head -3 | tr '\n' ' ')";;
+    neutral-*) if ! ( T=$(mktemp -d /tmp/applychk.XXXXXX); cp -a /repo/. $T/; cd $T && patch -p1 -s --dry-run < "$OLDPWD/$f" >/dev/null 2>&1; rc=$?; rm -rf $T; exit $rc ); then echo "BAD  $n: NOT-APPLICABLE (patch does not apply)"; return; fi
+      out=$(VERBOSE=1000 tools/runmut.sh "$f" C01 C02 C03 C04 C05 C06 C07 C08 C09 C10 C11 C12 C13 C14 C15 C16 C17 C18 C19 C20 2>&1 | grep OPEN | python3 tools/residual.py "$n"); [ -z "$out" ] && echo "OK   $n silent$(grep -q "^$n " mutants/neutral-residuals.txt && echo ' (documented residuals excepted)')" || echo "BAD  $n false alarm: $(echo "$out" | head -3 | tr '\n' ' ')";;
     *) p=${n%%-*}; out=$(tools/runmut.sh "$f" $p 2>&1 | head -1); case "$out" in *DETECTED*) echo "OK   $n detected";; *) echo "BAD  $n: $out";; esac;;
   esac
 }
